@@ -484,6 +484,26 @@ func c18(r *h.Result, rng *h.Rng, tier string, replay string) error {
 		if err != nil {
 			return err
 		}
+		var kind struct {
+			Replay struct {
+				Kind string `json:"kind"`
+			} `json:"replay"`
+		}
+		_ = json.Unmarshal(b, &kind)
+		if kind.Replay.Kind == "cluster" {
+			var cw struct {
+				Replay c18CSched `json:"replay"`
+			}
+			if err := json.Unmarshal(b, &cw); err != nil {
+				return err
+			}
+			r.Stream("replay of " + replay + " (cluster)")
+			cb := &c18CBatch{stream: "replay"}
+			if _, err := cb.run(r, cw.Replay, "f"); err != nil {
+				return err
+			}
+			return cb.flush(r)
+		}
 		var wrap struct {
 			Replay c18Sched `json:"replay"`
 		}
@@ -638,6 +658,11 @@ func c18(r *h.Result, rng *h.Rng, tier string, replay string) error {
 		}
 	}
 	if err := bt.flush(r); err != nil {
+		return err
+	}
+
+	// ---- the cluster model (c18cluster.go)
+	if err := c18Cluster(r, rng.Fork(), tier); err != nil {
 		return err
 	}
 
